@@ -58,6 +58,10 @@ fn seqs(n_alpha: usize, n: usize) -> Vec<Vec<usize>> {
     res
 }
 
+pub const PAR_TOKENS_PUB: [&str; 43] = PAR_TOKENS;
+pub fn seqs_pub(a: usize, n: usize) -> Vec<Vec<usize>> {
+    seqs(a, n)
+}
 const PAR_TOKENS: [&str; 43] = [
     "%start", "%title", "%comment", "%user_type", "%nt_type", "%t_type", "%grammar_type", "%line_comment", "%block_comment", "%auto_newline_off", "%auto_ws_off",
     "%skip", "%on", "%allow_unmatched", "%enter", "%push", "%pop", "%scanner", "%%", ":", ";", "|", "(", ")", "[", "]", "{", "}", "<", ">", ",", "^", "@", "::", "=", "?=", "?!",
